@@ -657,12 +657,11 @@ def render_call(name: str, ptypes, args) -> str:
 
 
 def call_worker(job):
-    """job: list of (name, ptypes, args)."""
+    """job: list of (name, ptypes, args, version)."""
     agg = _Agg()
-    for name, ptypes, args in job:
+    for name, ptypes, args, v in job:
         text = render_call(name, ptypes, args)
-        for v in VERSIONS:
-            agg.judge(v, text, dict(kind='call', function=name, parameter_types=list(ptypes), argument_classes=list(args)))
+        agg.judge(v, text, dict(kind='call', function=name, parameter_types=list(ptypes), argument_classes=list(args)))
     return agg.result()
 
 
@@ -971,8 +970,8 @@ def run(chk: core.Check) -> None:
     for i, a in calls:
         if len(a) != len(sigs[i - 1][1]):
             raise tla.MachineryError('ArgClass graph does not match the exported table')
-    cjobs = [(sigs[i - 1][0], sigs[i - 1][1], a) for i, a in calls]
-    cjobs.sort(key=lambda j: hash(j) % 1009)
+    cjobs = [(sigs[i - 1][0], sigs[i - 1][1], a, v) for i, a in calls for v in VERSIONS]
+    cjobs.sort(key=lambda j: hash(j) % 1009)      # spread the slow calls (and the versions of one call) over the chunks
     for st, fails, nontriv, samples in core.pool_map(call_worker, chunks(cjobs, PROCS * 8), procs=PROCS,
                                                      initializer=_winit, initargs=initargs):
         stats.update(st)
@@ -982,8 +981,8 @@ def run(chk: core.Check) -> None:
             chk.sample(s, cap=6)
     chk.add('transitions', n_edges)
     chk.coverage['function_signatures_exported'] = len(sigs)
-    chk.coverage['function_calls_replayed'] = len(cjobs)
-    print(f'  ArgClass: signatures={len(sigs)} calls={len(cjobs)} tlc={r.wall_s:.1f}s replay={time.time() - t0:.1f}s', flush=True)
+    chk.coverage['function_calls_replayed'] = len(calls)
+    print(f'  ArgClass: signatures={len(sigs)} calls={len(calls)} tlc={r.wall_s:.1f}s replay={time.time() - t0:.1f}s', flush=True)
 
     # ---- 3. ParserLife: model, self-tests, histories ------------------------------------
     wd = os.path.join(chk.scratch, 'life')
